@@ -251,7 +251,9 @@ class _KB:
 def _real_kernel(sector, order, method, scheme, g, a1, a0, nf, L):
     import numpy as np
     from unittest import mock
-    import eko.evolution_operator.quad_ker as qk
+    import importlib
+
+    qk = importlib.import_module("eko.evolution_operator.quad_ker")
     import eko.scale_variations as svmod
     from eko.kernels import EvoMethods
 
